@@ -173,6 +173,11 @@ func buildCase(sc *Script, o *Outcome) (ops, impl []string, ok bool) {
 		if c.Class == "HUNG" || !c.Quiesced {
 			return nil, nil, false
 		}
+		if c.Api == "sleep" {
+			// no packet ever means the last one is older than ReadTimeout
+			add("tick "+c.Class+" "+b01(c.Class != "1"), fmt.Sprintf("%s %s %s", c.State, b01(c.Closed), c.CloseCls))
+			continue
+		}
 		op := "call " + c.Api
 		if c.Api == "setup" {
 			m := MediaSpec{}
@@ -252,7 +257,7 @@ func (h *harness) report(sc *Script, o *Outcome) {
 		h.violate(sc, v.Clause, v.Key, v.Detail)
 	}
 	for _, cr := range o.Calls {
-		if !cr.Skipped {
+		if !cr.Skipped && cr.Api != "sleep" {
 			c.Dist("call:" + cr.Api + ":" + cr.Class)
 		}
 	}
@@ -473,8 +478,18 @@ func (h *harness) confirm(sc *Script, first *Outcome) *Outcome {
 
 // bisectLeak finds the conversations after which goroutines or descriptors stay behind.
 func (h *harness) bisectLeak(scripts []*Script) {
-	if len(scripts) == 0 {
+	if len(scripts) == 0 || h.nviol >= 6 {
 		return
+	}
+	if len(scripts) > 8 {
+		// a widespread leak shows on any conversation: try a few alone before bisecting
+		before := h.nviol
+		for _, i := range []int{0, len(scripts) / 3, 2 * len(scripts) / 3, len(scripts) - 1} {
+			h.bisectLeak(scripts[i : i+1])
+		}
+		if h.nviol > before {
+			return
+		}
 	}
 	if len(scripts) == 1 {
 		_, br, cr := h.solo(scripts[0])
@@ -567,6 +582,12 @@ func Run(ctx *corr.Ctx) {
 	}
 	for i := range ctx.N(250, 6000) {
 		scripts = append(scripts, g.secure(i))
+	}
+	for i := range ctx.N(150, 4000) {
+		scripts = append(scripts, g.udpSwitch(i))
+	}
+	for i := range ctx.N(120, 3000) {
+		scripts = append(scripts, g.tunnelled(i))
 	}
 	h.process(scripts)
 }
